@@ -490,7 +490,7 @@ func DrawCore(prop, tier string, ch *Chooser, lean bool, s *Sim) *Core {
 				cl.Window, cl.StartPaused = 64, true
 			}
 		}
-		for _, q := range c.reqs {
+		for _, q := range sortedReqs(c.reqs) {
 			q.Script.Stall = 0
 			if len(q.Script.Resps) > 0 && q.Script.Resps[0].Ctor != "entry" {
 				q.Script.Resps[0].Setters = append(q.Script.Resps[0].Setters, Setter{Kind: "diag", Str: string(make([]byte, 600+ch.Choose(3000)))})
